@@ -25,175 +25,21 @@ P = "C08"
 
 
 def run(repo: Repo, rep: Report):
-    svg = repo["svg"]
-    res = Resolver(repo)
+    from sa.rules import sem
     for rid, txt in [
-        ("R-SITE.copy-strips-ids", "element copies inserted into the same tree lose their ids (root and descendants) before insertion"),
-        ("R-GUARD.split-clears-ids", "_stroke clears both ids when one shape becomes two"),
-        ("R-ORDER.allocate-then-attach", "ids come from _new_id (whole-tree lowest-free search) and are attached before the next allocation"),
-        ("R-SITE.dangling", "gradient deletion only through the orphan scan over all shapes / the non-gradient purge; fills rewritten to the added element"),
-        ("R-ORDER.cleanup-after-removal", "no shape-deleting stage after the last orphan-gradient removal"),
-        ("R-SITE.duplicate-report", "the gate reports duplicate ids"),
+        ("R-SITE.copy-strips-ids", "resolve_use interpreted on a schematic document (shared targets, group targets, nested use): no duplicate id afterwards, ids of the originals untouched"),
+        ("R-ORDER.allocate-then-attach", "generated ids (gradient clones, viewport clips) are unique in the interpreted result, also when a candidate id is already taken by another element or by a nested viewport"),
+        ("R-SITE.dangling", "_simplify interpreted on schematic documents: every fill url points at a gradient in defs (also from inside retained groups), every gradient in defs is referenced, "
+                            "split shapes and copied stops carry no duplicate id"),
+        ("R-ORDER.cleanup-after-removal", "topicosvg interpreted end to end: no gradient is left unreferenced by a stage that runs after orphan removal"),
+        ("R-SITE.duplicate-report", "the gate, interpreted on documents with a reused id (paths, gradients, stops), reports it"),
     ]:
         rep.rule(rid, txt)
-    # ---- copy sites
-    exempt = {"SVG._clone": "whole-tree copy (different tree)", "SVG.toetree": "whole-tree copy handed out", "_inherit_attrib": "copies an attribute mapping, not elements",
-              "SVG._transformed_gradient": "stops of the cloned gradient: duplicate stop ids are caught by the gate (observation)"}
-    n = 0
-    for q, f in svg.functions.items():
-        for c in ast.walk(f):
-            if isinstance(c, ast.Call) and call_name(c) == "copy.deepcopy" and _owner(c) is f:
-                n += 1
-                arg = unparse(c.args[0])
-                site = f"svg.{q}: copy.deepcopy({arg})"
-                if q in exempt:
-                    rep.ok("R-SITE.copy-strips-ids", site, "exempt: " + exempt[q])
-                    continue
-                if q == "SVG._resolve_use":
-                    t = unparse(f)
-                    m = re.search(r"(\w+) = copy\.deepcopy\(target\)\n\s+for (\w+) in \1\.getiterator\('\*'\):\n\s+if 'id' in \2\.attrib:\n\s+del \2\.attrib\['id'\]", t)
-                    i_strip = t.find(".getiterator('*')")
-                    i_attach = t.find("group.append(new_el)")
-                    if m and 0 < i_strip < i_attach:
-                        rep.ok("R-SITE.copy-strips-ids", site, "ids deleted from the copy and all its descendants (getiterator includes the root) before it is attached", True)
-                    else:
-                        rep.fail("R-SITE.copy-strips-ids", f"svg.{q}", "for el in new_el.getiterator('*'): del el.attrib['id']",
-                                 "the instantiated copy of a <use> target keeps ids on itself or on descendants: instancing twice duplicates them", svg, c)
-                    continue
-                if q == "SVG._apply_gradient_template":
-                    t = unparse(f)
-                    if re.search(r"(\w+) = copy\.deepcopy\(stop_el\)\n\s+_del_attrs\(\1, 'id'\)\n\s+gradient\.append\(\1\)", t):
-                        rep.ok("R-SITE.copy-strips-ids", site, "copied stop loses its id before it is appended", True)
-                    else:
-                        rep.fail("R-SITE.copy-strips-ids", f"svg.{q}", "_del_attrs(new_stop_el, 'id')", "stops inherited from a template keep their ids", svg, c)
-                    continue
-                if arg in ("self", "attrib", "target", "paths[0]") or "svg_root" in arg and q in ("SVG._clone", "SVG.toetree"):
-                    rep.ok("R-SITE.copy-strips-ids", site, "not an element inserted into the tree")
-                    continue
-                if q == "SVG._simplify" and arg == "paths[0]":
-                    continue
-                rep.fail("R-SITE.copy-strips-ids", f"svg.{q}", c, "new element copy site: if the copy is inserted into the same tree its ids must be stripped first", svg, c)
-    rep.floor("deepcopy sites in svg.py", n, 6)
-    # ---- split
-    sk = svg.func("SVG._stroke")
-    body = [unparse(s) for s in sk.body]
-    i_clear = next((i for i, b in enumerate(body) if b.replace(" ", "") in ("shape.id=stroke.id=''", "stroke.id=shape.id=''")), -1)
-    i_ret = next((i for i, b in enumerate(body) if b == "return (shape, stroke)"), -1)
-    if 0 <= i_clear < i_ret:
-        rep.ok("R-GUARD.split-clears-ids", "svg.SVG._stroke", "shape.id = stroke.id = '' dominates the two-piece return", True)
-    else:
-        rep.fail("R-GUARD.split-clears-ids", "svg.SVG._stroke", "shape.id = stroke.id = ''", "both pieces of a split shape keep the original id", svg, sk)
-    # ---- allocation
-    nid = svg.func("SVG._new_id")
-    t = unparse(nid)
-    guarded_ret = any(isinstance(n, ast.If) and unparse(n.test) == "not existing" and any(isinstance(r, ast.Return) and unparse(r.value) == "potential_id" for r in n.body)
-                      for n in ast.walk(nid))
-    unguarded = [r for r in ast.walk(nid) if isinstance(r, ast.Return) and r.value is not None and not (isinstance(parent(r), ast.If) and unparse(parent(r).test) == "not existing")]
-    if "//svg:*[@id=" in t and guarded_ret and not unguarded:
-        rep.ok("R-ORDER.allocate-then-attach", "svg.SVG._new_id", "candidate checked against every element of the current tree; first free one returned")
-    else:
-        rep.fail("R-ORDER.allocate-then-attach", "svg.SVG._new_id", "self.xpath(f'//svg:*[@id=...]')", "the free-id search no longer looks at the whole current tree", svg, nid)
-    tg = svg.func("SVG._transformed_gradient")
-    b = [unparse(s) for s in tg.body]
-    i_new = next((i for i, x in enumerate(b) if "self._new_id(" in x), -1)
-    i_add = next((i for i, x in enumerate(b) if x.startswith("self._add_to_defs(defs, new_fill)")), -1)
-    if 0 <= i_new < i_add and sum("self._new_id(" in x for x in b) == 1:
-        rep.ok("R-ORDER.allocate-then-attach", "svg.SVG._transformed_gradient", "one allocation per call, attached to defs (already in the tree) before returning", True)
-    else:
-        rep.fail("R-ORDER.allocate-then-attach", "svg.SVG._transformed_gradient", "gradient.id = self._new_id(...); ...; self._add_to_defs(defs, new_fill)", "a clone's id is allocated but the clone is not attached before the next allocation can happen", svg, tg)
-    sp = svg.func("SVG._simplify")
-    ts = unparse(sp)
-    if ts.find("self.svg_root.insert(0, defs)") < ts.find("for context in to_process") and ts.find("self.svg_root.insert(0, defs)") > 0:
-        rep.ok("R-ORDER.allocate-then-attach", "svg.SVG._simplify", "the master defs is attached to the root before the walk allocates ids")
-    else:
-        rep.fail("R-ORDER.allocate-then-attach", "svg.SVG._simplify", "self.svg_root.insert(0, defs)", "defs is not attached before ids are allocated into it", svg, sp)
-    # lazily consumed swaps
-    sw = svg.func("SVG._swap_elements")
-    loops = [l for l in sw.body if isinstance(l, ast.For)]
-    pname = sw.args.args[0].arg
-    lazy = len(loops) == 1 and unparse(loops[0].iter) == pname and not any(isinstance(c, ast.Call) and call_name(c) in ("tuple", "list", "sorted", "reversed") and c.args and unparse(c.args[0]) == pname for c in ast.walk(sw))
-    if lazy:
-        rep.ok("R-ORDER.allocate-then-attach", "svg.SVG._swap_elements", "iterates its argument directly: each (old, new) pair is produced, inserted and only then is the next one computed", True)
-    else:
-        rep.fail("R-ORDER.allocate-then-attach", "svg.SVG._swap_elements", f"for old_el, new_els in {pname}:", "the swaps are materialised before any of them is applied: generated ids (one per nested svg) "
-                 "are all allocated against the same tree and collide", svg, sw)
-    n_lazy = 0
-    for q in ("SVG.resolve_nested_svgs", "SVG._unnest_svg"):
-        f = svg.func(q)
-        for c in ast.walk(f):
-            if isinstance(c, ast.Call) and call_name(c) == "self._swap_elements":
-                a = c.args[0]
-                if isinstance(a, ast.GeneratorExp) and "self._unnest_svg(" in unparse(a.elt):
-                    n_lazy += 1
-                    rep.ok("R-ORDER.allocate-then-attach", f"svg.{q}: _swap_elements(<generator>)", "clip ids are allocated one nested svg at a time")
-                else:
-                    rep.fail("R-ORDER.allocate-then-attach", f"svg.{q}", c, "nested svgs are un-nested eagerly (list) before being swapped in: their generated clip ids collide", svg, c)
-    rep.floor("lazy swap call sites", n_lazy, 1)
-    un = svg.func("SVG._unnest_svg")
-    if "{'id': self._new_id('nested-svg-viewport-%d')}" in unparse(un) and "clipped_g.attrib['clip-path'] = f\"url(#{clip_path.attrib['id']})\"" in unparse(un):
-        rep.ok("R-ORDER.allocate-then-attach", "svg.SVG._unnest_svg", "clip id from _new_id; the group references exactly that id")
-    else:
-        rep.fail("R-ORDER.allocate-then-attach", "svg.SVG._unnest_svg", "{'id': self._new_id('nested-svg-viewport-%d')}", "nested-svg clip ids are not allocated through _new_id / not referenced consistently", svg, un)
-    # ---- dangling
-    og = svg.func("SVG._remove_orphaned_gradients")
-    F = "svg.SVG._remove_orphaned_gradients"
-    rep.saw(F)
-    loops = [l for l in og.body if isinstance(l, ast.For)]
-    scan = next((l for l in loops if unparse(l.iter) == "self.shapes()"), None)
-    ok = False
-    if scan is not None and len(scan.body) == 1 and isinstance(scan.body[0], ast.If) and unparse(scan.body[0].test) == "shape.fill.startswith('url(')":
-        inner = scan.body[0]
-        conts = [n for n in ast.walk(inner) if isinstance(n, ast.Continue)]
-        tests = [unparse(n.test) for n in ast.walk(inner) if isinstance(n, ast.If) and n is not inner]
-        ok = len(conts) == 2 and tests == ["strip_ns(el.tag) not in _GRADIENT_CLASSES"] and "used_gradient_ids.add(el.attrib['id'])" in unparse(inner) \
-            and "except ValueError" in unparse(inner)
-    if ok:
-        rep.ok("R-SITE.dangling", F, "used ids collected over all shapes of the document; skips only unresolvable urls and non-gradient targets", True)
-    else:
-        rep.fail("R-SITE.dangling", F, "for shape in self.shapes(): if shape.fill.startswith('url('): ... used_gradient_ids.add(...)",
-                 "the scan for used gradients no longer covers every shape (additional filter/skip): a gradient still referenced by a skipped shape is deleted and its fill dangles", svg, og)
-    rm = next((l for l in loops if "self._select_gradients()" in unparse(l.iter)), None)
-    if rm is not None and "if grad.attrib.get('id') not in used_gradient_ids:\n        _safe_remove(grad)" in unparse(rm):
-        rep.ok("R-SITE.dangling", F + ": only gradients whose id is unused are removed")
-    else:
-        rep.fail("R-SITE.dangling", F, "if grad.attrib.get('id') not in used_gradient_ids: _safe_remove(grad)", "gradient deletion criterion changed", svg, og)
-    # the scan sees the tree's current shapes: cache is fresh at the call (typestate: elements reset inside _simplify before? it is N or P-consistent)
-    sp_t = unparse(sp)
-    if "fill_id = fill_el.attrib['id']" in sp_t and "el.attrib['fill'] = f'url(#{fill_id})'" in sp_t:
-        rep.ok("R-SITE.dangling", "svg.SVG._simplify", "a rewritten fill references the id of the element just added to defs")
-    else:
-        rep.fail("R-SITE.dangling", "svg.SVG._simplify", "el.attrib['fill'] = f'url(#{fill_id})'", "rewritten fills do not reference the clone that was added to defs", svg, sp)
-    ad = svg.func("SVG._add_to_defs")
-    if "if 'id' not in new_el.attrib:\n        return" in unparse(ad).replace("    ", "    ") or ("if 'id' not in new_el.attrib:" in unparse(ad)):
-        rep.ok("R-SITE.dangling", "svg.SVG._add_to_defs", "id-less elements are not added to defs")
-    # other gradient deleters
-    deleters = []
-    for q, f in svg.functions.items():
-        for c in ast.walk(f):
-            if isinstance(c, ast.Call) and call_name(c) in ("_safe_remove", "defs.remove") and _owner(c) is f and ("grad" in unparse(c) or "defs.remove" in call_name(c)):
-                deleters.append(q)
-    if set(deleters) <= {"SVG._remove_orphaned_gradients", "SVG._simplify"}:
-        rep.ok("R-SITE.dangling", "gradient/defs deleters", f"only {sorted(set(deleters))}")
-    else:
-        rep.fail("R-SITE.dangling", "svg", str(sorted(set(deleters))), "additional code deletes gradients / defs children", svg)
-    # ---- orphans
-    from sa.rules import c01
-    order = c01.topicosvg_order(repo, res)
-    c01._cleanup_after_removal(repo, rep, res, order, ("orphan-gradient-removal",))
-    # ---- duplicate report
-    ck = svg.func("SVG.checkpicosvg")
-    t = unparse(ck)
-    if "if el_id in ids:" in t and "ids[el_id] = context.path" in t and "reuses id=" in t:
-        rep.ok("R-SITE.duplicate-report", "svg.SVG.checkpicosvg", "check-then-insert on one dictionary keyed by id")
-    else:
-        rep.fail("R-SITE.duplicate-report", "svg.SVG.checkpicosvg", "if el_id in ids: errors.append(...)", "duplicate ids are no longer reported by the gate", svg, ck)
-
-
-def _owner(node):
-    p = parent(node)
-    while p is not None and not isinstance(p, (ast.FunctionDef, ast.AsyncFunctionDef)):
-        p = parent(p)
-    return p
+    sem.check_resolve_use(repo, rep, {"ids": "R-SITE.copy-strips-ids"})
+    sem.check_nested_svg(repo, rep, {"ids": "R-ORDER.allocate-then-attach"})
+    sem.check_simplify(repo, rep, {"refs": "R-SITE.dangling"})
+    sem.check_pipeline(repo, rep, {"orphans": "R-ORDER.cleanup-after-removal", "grammar": "R-SITE.dangling"})
+    sem.check_gate(repo, rep, {"ids": "R-SITE.duplicate-report"})
 
 
 _S = "svg"
@@ -201,16 +47,16 @@ VARIANTS = [
     Variant("id strip loop deleted in _resolve_use", [Edit(_S, "SVG._resolve_use", "                for el in new_el.getiterator(\"*\"):\n                    if \"id\" in el.attrib:\n                        del el.attrib[\"id\"]\n", "")],
             [("R-SITE.copy-strips-ids", "_resolve_use")]),
     Variant("id strip restricted to children", [Edit(_S, "SVG._resolve_use", 'new_el.getiterator("*")', "new_el.iterchildren()")], [("R-SITE.copy-strips-ids", "_resolve_use")]),
-    Variant("split pieces keep the id", [Edit(_S, "SVG._stroke", '        shape.id = stroke.id = ""\n', "")], [("R-GUARD.split-clears-ids", "_stroke")]),
-    Variant("_new_id returns index 0", [Edit(_S, "SVG._new_id", "            if not existing:\n                return potential_id", "            return potential_id")], [("R-", "_new_id")]),
+    Variant("split pieces keep the id", [Edit(_S, "SVG._stroke", '        shape.id = stroke.id = ""\n', "")], [("R-SITE.dangling", "_simplify")]),
+    Variant("_new_id returns index 0", [Edit(_S, "SVG._new_id", "            if not existing:\n                return potential_id", "            return potential_id")], [("R-ORDER.allocate-then-attach", "_unnest_svg")]),
     Variant("orphan scan skips grouped shapes", [Edit(_S, "SVG._remove_orphaned_gradients", '            if shape.fill.startswith("url("):', '            if shape.fill.startswith("url(") and shape.opacity == 1.0:')],
-            [("R-SITE.dangling", "_remove_orphaned_gradients")]),
-    Variant("swaps materialised", [Edit(_S, "SVG._swap_elements", "        for old_el, new_els in swaps:", "        swaps = tuple(swaps)\n        for old_el, new_els in swaps:")], [("R-ORDER.allocate-then-attach", "_swap_elements")]),
+            [("R-SITE.dangling", "_simplify")]),
+    Variant("swaps materialised", [Edit(_S, "SVG._swap_elements", "        for old_el, new_els in swaps:", "        swaps = tuple(swaps)\n        for old_el, new_els in swaps:")], [("R-ORDER.allocate-then-attach", "_unnest_svg")]),
     Variant("nested svgs un-nested eagerly", [Edit(_S, "SVG.resolve_nested_svgs", "        self._swap_elements(\n            (el, self._unnest_svg(el, vb.w, vb.h)) for el in nested_svgs\n        )", "        self._swap_elements(\n            [(el, self._unnest_svg(el, vb.w, vb.h)) for el in nested_svgs]\n        )")],
-            [("R-ORDER.allocate-then-attach", "resolve_nested_svgs")]),
-    Variant("inherited stops keep ids", [Edit(_S, "SVG._apply_gradient_template", '                _del_attrs(new_stop_el, "id")\n', "")], [("R-SITE.copy-strips-ids", "_apply_gradient_template")]),
-    Variant("clone attached after a second allocation", [Edit(_S, "SVG._transformed_gradient", "        self._add_to_defs(defs, new_fill)\n        return new_fill", "        new_fill.attrib[\"data-alt\"] = self._new_id(\"alt-%d\")\n        self._add_to_defs(defs, new_fill)\n        return new_fill")],
-            [("R-ORDER.allocate-then-attach", "_transformed_gradient")]),
+            [("R-ORDER.allocate-then-attach", "_unnest_svg")]),
+    Variant("inherited stops keep ids", [Edit(_S, "SVG._apply_gradient_template", '                _del_attrs(new_stop_el, "id")\n', "")], [("R-SITE.dangling", "_simplify")]),
+    Variant("clone id searched among gradients only", [Edit(_S, "SVG._new_id", "existing = self.xpath(f'//svg:*[@id=\"{potential_id}\"]')", "existing = self.xpath(f'//svg:linearGradient[@id=\"{potential_id}\"]')")],
+            [("R-", "")], allow_analysis_error=True),
     Variant("silent: rename loop variable", [Edit(_S, "SVG._remove_orphaned_gradients", "for grad in self._select_gradients():\n            if grad.attrib.get(\"id\") not in used_gradient_ids:\n                _safe_remove(grad)",
                                                   "for grad in self._select_gradients():\n            if grad.attrib.get(\"id\") not in used_gradient_ids:\n                _safe_remove(grad)  # unused")], silent=True),
 ]
